@@ -16,6 +16,7 @@
 // (locality) ftD = ftB;  at every step, run boundaries included.
 #include "simrun.h"
 #include "scenario.h"
+#include "geom.h"
 
 #include <cmath>
 #include <memory>
@@ -42,19 +43,49 @@ J gen(uint64_t seed, bool thorough) {
   J e = J::obj(); ec.to_json(e); sc["engine"] = e;
   sc["config"] = global_config(1, 0, false);
   sc["T"] = (long long)T;
-  static const char *kinds[] = {"distance", "distanceZ", "dihedral", "angle", "distanceXY"};
-  CvSpec cv = make_cv(r, ec.natoms, kinds[r.below(5)], "x");
+  static const char *kinds[] = {"distance", "distanceZ", "dihedral", "angle", "distanceXY", "gyration", "rmsd", "eigenvector"};
+  std::string kind = kinds[r.below(8)];
+  bool fitted = kind == "gyration" || kind == "rmsd" || kind == "eigenvector";
+  if (fitted && kind != "gyration" && ec.traj_amp > 0.5) {   // keep the optimal rotation well defined
+    ec.traj_amp = 0.5; m.build(ec.data_seed, ec.natoms, ec.traj_amp, ec.force_amp, false);
+    e = J::obj(); ec.to_json(e); sc["engine"] = e;
+  }
+  CvSpec cv = make_cv(r, ec.natoms, kind, "x");
+  if (fitted) {
+    int n = (int)r.range(4, std::min(7, ec.natoms));
+    cv.groups = pick_groups(r, ec.natoms, 1, 1); std::set<int> have(cv.groups[0].begin(), cv.groups[0].end());
+    while ((int)have.size() < n) have.insert((int)r.below((uint64_t)ec.natoms));
+    cv.groups[0].assign(have.begin(), have.end());
+    auto r3 = [](double v) { return std::round(v * 1000.0) / 1000.0; };
+    if (kind != "gyration") {
+      long tref = r.range(0, T);
+      for (int a : cv.groups[0]) { V3 p = m.pos(a, tref); cv.ref.push_back(V3(r3(p.x + r.uniform(-0.4, 0.4)), r3(p.y + r.uniform(-0.4, 0.4)), r3(p.z + r.uniform(-0.4, 0.4)))); }
+    }
+    if (kind == "eigenvector") {
+      cv.difference = r.chance(0.4);
+      for (size_t i = 0; i < cv.groups[0].size(); i++) {
+        V3 d(r3(r.uniform(-1, 1)), r3(r.uniform(-1, 1)), r3(r.uniform(-1, 1)));
+        cv.vec.push_back(cv.difference ? V3(r3(cv.ref[i].x + 0.6 * d.x), r3(cv.ref[i].y + 0.6 * d.y), r3(cv.ref[i].z + 0.6 * d.z)) : d);
+      }
+      cv.normalize = r.chance(0.5);
+    }
+  }
   place_grid(cv, m, T, r, (int)r.range(5, 10), 1.3);
   double lo, hi; cv_range(cv, m, T, lo, hi);
   bool sub = r.chance(0.5);
   cv.extra += "  outputTotalForce on\n";
   if (sub) cv.extra += "  subtractAppliedForce on\n";
   sc["cv"] = cv.config(); sc["kind"] = cv.kind; sc["sub"] = sub;
-  sc["keepawake"] = "histogram {\n  name keep\n  colvars x\n}\n";
+  bool hide = r.chance(0.15) && !cv.periodic();   // (a periodic 1-D ABF applies minus its mean gradient from the first sample on)
+  sc["hide"] = hide;
+  sc["keepawake"] = hide ? "abf {\n  name keep\n  colvars x\n  fullSamples 1000000\n  hideJacobian on\n}\n" : "histogram {\n  name keep\n  colvars x\n}\n";
+  { J g = J::arr(); for (int a : cv.groups[0]) g.push((long long)a); sc["group"] = g;
+    J rf = J::arr(); for (auto const &v : cv.ref) { rf.push(v.x); rf.push(v.y); rf.push(v.z); } sc["ref"] = rf;
+    J vc = J::arr(); for (auto const &v : cv.vec) { vc.push(v.x); vc.push(v.y); vc.push(v.z); } sc["vec"] = vc; sc["normalize"] = cv.normalize; sc["difference"] = cv.difference; }
   J used = J::arr(); { std::set<int> u; for (auto const &g : cv.groups) for (int a : g) u.insert(a); for (int a : u) used.push((long long)a); }
   sc["atoms"] = used;
   std::vector<CvSpec> sub1{cv}; std::vector<std::pair<double, double>> rg{{lo, hi}};
-  J ops = J::arr(); std::string sig = cv.kind.substr(0, 5) + (sub ? "/sub" : "") + (ec.forces_late ? "/late/" : "/same/");
+  J ops = J::arr(); std::string sig = cv.kind.substr(0, 5) + (cv.normalize ? "n" : "") + (cv.difference ? "d" : "") + (hide ? "/hide" : "") + (sub ? "/sub" : "") + (ec.forces_late ? "/late/" : "/same/");
   int nb = 0; std::vector<std::string> live;
   auto add = [&]() {
     std::string t;
@@ -85,7 +116,7 @@ J gen(uint64_t seed, bool thorough) {
 struct Trace { std::vector<StepRec> recs; std::string err; };
 
 // mode: 0 = no system forces, 1 = S, 2 = 2S, 3 = S + foreign
-Trace execute(J const &plan, int mode, RunResult &res) {
+Trace execute(J const &plan, int mode, RunResult &res, bool nohide = false) {
   Trace out;
   J const &sc = plan.at("scenario");
   EngineCfg ec; std::string config; long T;
@@ -100,7 +131,7 @@ Trace execute(J const &plan, int mode, RunResult &res) {
       else if (mode == 3 && !used.count((int)i)) f[i] += cvm::rvector(counter_gauss(fseed, i, (uint64_t)step, 0), counter_gauss(fseed, i, (uint64_t)step, 1), counter_gauss(fseed, i, (uint64_t)step, 2)) * 5.0;
     }
   };
-  std::string conf = config + sc.at("cv").as_str() + sc.at("keepawake").as_str();
+  std::string conf = config + sc.at("cv").as_str() + (nohide ? std::string("histogram {\n  name keep\n  colvars x\n}\n") : sc.at("keepawake").as_str());
   if (e->configure(conf) != COLVARS_OK || cvm::get_error()) { out.err = "configuration refused: " + e->last_error(); return out; }
   for (auto const &op : plan.at("ops").a) {
     std::string k = op.at("op").as_str();
@@ -116,12 +147,67 @@ Trace execute(J const &plan, int mode, RunResult &res) {
 
 bool close_enough(double a, double b, double rtol, double atol) { return std::fabs(a - b) <= atol + rtol * std::max(std::fabs(a), std::fabs(b)); }
 
-double jacobian(std::string const &kind, double x) {
-  if (kind == "distance") return x != 0 ? 2.0 / x : 0.0;
-  if (kind == "distanceXY") return x != 0 ? 1.0 / x : 0.0;
-  if (kind == "angle") { double th = x * M_PI / 180.0; return M_PI / 180.0 * (th != 0 ? std::cos(th) / std::sin(th) : 0.0); }
-  return 0.0;   // distanceZ, dihedral
-}
+struct JacCtx {
+  std::string kind; std::vector<int> group; std::vector<V3> ref, evec; TrajModel m; bool hide = false;
+  long fd_unstable = 0, value_mismatch = 0, numeric = 0;
+  double last_mag = 0;   // sum of the absolute finite-difference terms of the last numeric divergence (sets its accuracy)
+  std::vector<V3> positions(long step) const { std::vector<V3> p; for (int a : group) p.push_back(m.pos(a, step)); return p; }
+  double value(std::vector<V3> const &p) const {
+    if (kind == "gyration") return radius_of_gyration(p);
+    if (kind == "rmsd") return min_rmsd(p, ref);
+    std::vector<V3> xs = superpose(p, ref); double v = 0;
+    for (size_t i = 0; i < p.size(); i++) v += (xs[i] - ref[i]).dot(evec[i]);
+    return v;
+  }
+  // divergence of the inverse-gradient field v_i the variable projects the forces on, by finite differences:
+  // gyration, rmsd: v_i = N grad_i xi (|grad xi|^2 = 1/N), so div v = N Laplacian(xi);
+  // eigenvector: v_i = R^t e_i / |e|^2 with R the optimal rotation
+  double divergence(std::vector<V3> const &p0, double h, double *mag = nullptr) const {
+    std::vector<V3> p = p0; double acc = 0, absacc = 0;
+    auto comp = [](V3 &v, int c) -> double & { return c == 0 ? v.x : c == 1 ? v.y : v.z; };
+    if (kind == "eigenvector") {
+      double n2 = 0; for (auto const &e : evec) n2 += e.dot(e);
+      for (size_t i = 0; i < p.size(); i++)
+        for (int c = 0; c < 3; c++) {
+          double keep = comp(p[i], c); M3 Rp, Rm;
+          comp(p[i], c) = keep + h; superpose(p, ref, &Rp);
+          comp(p[i], c) = keep - h; superpose(p, ref, &Rm);
+          comp(p[i], c) = keep;
+          V3 a = Rp.apply_t(evec[i]), b = Rm.apply_t(evec[i]);
+          acc += (comp(a, c) - comp(b, c)) / (2 * h); absacc += std::fabs(comp(a, c) - comp(b, c)) / (2 * h);
+        }
+      if (mag) *mag = absacc / n2;
+      return acc / n2;
+    }
+    double v0 = value(p);
+    for (size_t i = 0; i < p.size(); i++)
+      for (int c = 0; c < 3; c++) {
+        double keep = comp(p[i], c);
+        comp(p[i], c) = keep + h; double vp = value(p);
+        comp(p[i], c) = keep - h; double vm = value(p);
+        comp(p[i], c) = keep;
+        acc += (vp + vm - 2 * v0) / (h * h); absacc += std::fabs(vp + vm - 2 * v0) / (h * h);
+      }
+    if (mag) *mag = absacc * (double)p.size();
+    return acc * (double)p.size();
+  }
+  // the documented Jacobian term (without kT); ok = false when the reference cannot decide this step
+  double jac(long step, double x, bool &ok) {
+    ok = true; last_mag = 0;
+    if (kind == "distance") return x != 0 ? 2.0 / x : 0.0;
+    if (kind == "distanceXY") return x != 0 ? 1.0 / x : 0.0;
+    if (kind == "angle") { double th = x * M_PI / 180.0; return M_PI / 180.0 * (th != 0 ? std::cos(th) / std::sin(th) : 0.0); }
+    if (kind == "distanceZ" || kind == "dihedral") return 0.0;
+    std::vector<V3> p = positions(step);
+    double mine = value(p);
+    if (std::fabs(mine - x) > 1e-9 * (1 + std::fabs(x))) { value_mismatch++; ok = false; return 0; }
+    double h1 = kind == "eigenvector" ? 1e-4 : 1e-3;
+    double d1 = divergence(p, h1, &last_mag), d2 = divergence(p, 2 * h1);
+    if (std::fabs(d1 - d2) > 2e-5 * (1 + last_mag)) { fd_unstable++; ok = false; return 0; }
+    numeric++;
+    return d1;
+  }
+};
 
 RunResult run(J const &plan) {
   RunResult res;
@@ -130,42 +216,69 @@ RunResult run(J const &plan) {
   scenario_from_json(sc, ec, config, T);
   std::string kind = sc.at("kind").as_str(); bool sub = sc.at("sub").as_bool(); bool late = ec.forces_late;
   double kT = 0.001987191 * ec.temperature;
+  JacCtx jc; jc.kind = kind; jc.hide = sc.has("hide") && sc.at("hide").as_bool();
+  bool numeric_kind = kind == "gyration" || kind == "rmsd" || kind == "eigenvector";
+  if (numeric_kind) {
+    jc.m.build(ec.data_seed, ec.natoms, ec.traj_amp, ec.force_amp, false);
+    for (auto const &a : sc.at("group").a) jc.group.push_back((int)a.as_int());
+    CvSpec tmp; auto const &rf = sc.at("ref").a; auto const &vc = sc.at("vec").a;
+    for (size_t i = 0; i + 2 < rf.size(); i += 3) jc.ref.push_back(V3(rf[i].as_num(), rf[i + 1].as_num(), rf[i + 2].as_num()));
+    for (size_t i = 0; i + 2 < vc.size(); i += 3) tmp.vec.push_back(V3(vc[i].as_num(), vc[i + 1].as_num(), vc[i + 2].as_num()));
+    tmp.normalize = sc.at("normalize").as_bool(); tmp.difference = sc.has("difference") && sc.at("difference").as_bool(); tmp.ref = jc.ref; jc.evec = tmp.centred_vec();
+  }
+  double jtol = numeric_kind ? 1e-5 : 1e-9;
   Trace tr[4];
   for (int mode = 0; mode < 4; mode++) {
     SimRun sim(1); tr[mode] = execute(plan, mode, res); sim.finish(res);
     if (!tr[mode].err.empty()) { res.counters["probe.configuration_refused"]++; res.detail = tr[mode].err; return res; }
     if (tr[mode].recs.size() != tr[0].recs.size()) { res.fail("total_force", "step_count", "mode " + std::to_string(mode)); return res; }
   }
-  long inverse_checks = 0, lin_checks = 0, nonzero_applied = 0;
+  // hideJacobian: the same plan without it gives the force the biases put on the variable
+  Trace twin; bool hide = jc.hide;
+  if (hide) { SimRun sim(1); RunResult scratch; twin = execute(plan, 0, scratch, true); sim.finish(scratch); if (!twin.err.empty() || twin.recs.size() != tr[0].recs.size()) { res.counters["probe.configuration_refused"]++; return res; } }
+  long inverse_checks = 0, lin_checks = 0, nonzero_applied = 0, comp_checks = 0;
   uint64_t fp = 1469598103934665603ULL;
   for (size_t s = 0; s < tr[0].recs.size() && !res.violation; s++) {
     StepRec const &A = tr[0].recs[s], &B = tr[1].recs[s], &C = tr[2].recs[s], &D = tr[3].recs[s];
     std::string at = "step " + std::to_string(A.step) + " (record " + std::to_string(s) + (A.continuing ? ", repeated" : "") + ")";
     if (A.err || B.err) { res.fail("total_force", "step_error", at); break; }
     double ftA = A.cv_ft[0], ftB = B.cv_ft[0], ftC = C.cv_ft[0], ftD = D.cv_ft[0];
+    if (hide && kT != 0) {
+      // hidden on request: the variable silently applies the opposite of the Jacobian term on top of the biases' force
+      bool ok = true; double jt = kT * jc.jac(A.step, A.cv[0], ok);
+      if (ok) {
+        double expect = twin.recs[s].cv_fa[0] - jt;
+        if (!close_enough(A.cv_fa[0], expect, 1e-9, 1e-11 + jtol * std::max(std::fabs(jt), kT * jc.last_mag))) { res.fail("inverse", "hidden_jacobian_not_compensated", at + ": force applied through the variable " + fmt_double(A.cv_fa[0]) + "; biases' force " + fmt_double(twin.recs[s].cv_fa[0]) + " minus Jacobian term " + fmt_double(jt) + " = " + fmt_double(expect)); break; }
+        comp_checks++;
+      }
+    }
     // inverse
     if (late) {
       if (s > 0 && !(A.step == tr[0].recs[s - 1].step && false)) {
         StepRec const &P = tr[0].recs[s - 1];
         bool first_of_run_zero = false;
         (void)first_of_run_zero;
-        double fprev = P.cv_fa[0]; if (fprev != 0.0) nonzero_applied++;
-        double expect = (sub ? 0.0 : fprev) + kT * jacobian(kind, P.cv[0]);
-        double scale = std::fabs(fprev) + std::fabs(kT * jacobian(kind, P.cv[0]));
-        if (!close_enough(ftA, expect, 1e-9, 1e-9 * scale + 1e-11)) {
+        double fprev = hide ? twin.recs[s - 1].cv_fa[0] : P.cv_fa[0]; if (fprev != 0.0) nonzero_applied++;
+        bool ok = true; double jt = kT != 0 && !hide ? kT * jc.jac(P.step, P.cv[0], ok) : 0.0;
+        if (!ok) continue;
+        double expect = (sub ? 0.0 : fprev) + jt;
+        double scale = std::fabs(fprev) + std::fabs(jt);
+        if (!close_enough(ftA, expect, 1e-9, 1e-9 * scale + 1e-11 + jtol * std::max(std::fabs(jt), kT * jc.last_mag))) {
           res.fail("inverse", std::string(sub ? "own_force_not_excluded_or_jacobian" : "applied_force_not_recovered") + (A.continuing ? "/at_run_boundary" : ""),
-                   at + ": reported total force " + fmt_double(ftA) + "; the variable applied " + fmt_double(fprev) + " at the previous evaluation, Jacobian term " + fmt_double(kT * jacobian(kind, P.cv[0])) + ", expected " + fmt_double(expect));
+                   at + ": reported total force " + fmt_double(ftA) + "; the variable applied " + fmt_double(fprev) + " at the previous evaluation, Jacobian term " + fmt_double(jt) + ", expected " + fmt_double(expect));
           break;
         }
         inverse_checks++;
       }
     } else {
       // same-step forces: nothing Colvars applies at this step is in them
-      double expect = kT * jacobian(kind, A.cv[0]);
-      if (s > 0 && !close_enough(ftA, expect, 1e-9, 1e-11)) {
+      bool ok = true; double expect = kT != 0 && !hide ? kT * jc.jac(A.step, A.cv[0], ok) : 0.0;
+      if (!ok) continue;
+      if (s > 0 && !close_enough(ftA, expect, 1e-9, 1e-11 + jtol * std::max(std::fabs(expect), kT * jc.last_mag))) {
         // (the Jacobian term of the previous evaluation is tolerated: see DESIGN, C07)
-        double alt = kT * jacobian(kind, tr[0].recs[s - 1].cv[0]);
-        if (!close_enough(ftA, alt, 1e-9, 1e-11)) { res.fail("inverse", "same_step_total_force_not_jacobian_only", at + ": reported total force " + fmt_double(ftA) + " with no system forces; Jacobian term " + fmt_double(expect)); break; }
+        bool ok2 = true; double alt = kT != 0 && !hide ? kT * jc.jac(tr[0].recs[s - 1].step, tr[0].recs[s - 1].cv[0], ok2) : 0.0;
+        if (!ok2) continue;
+        if (!close_enough(ftA, alt, 1e-9, 1e-11 + jtol * std::max(std::fabs(alt), kT * jc.last_mag))) { res.fail("inverse", hide ? "same_step_total_force_keeps_hidden_jacobian" : "same_step_total_force_not_jacobian_only", at + ": reported total force " + fmt_double(ftA) + " with no system forces; Jacobian term " + fmt_double(expect)); break; }
         res.counters["probe.same_step_jacobian_of_previous_step"]++;
       }
       if (s > 0) inverse_checks++;
@@ -182,10 +295,14 @@ RunResult run(J const &plan) {
   }
   res.counters["probe.inverse_checks"] += inverse_checks;
   res.counters["probe.linearity_checks"] += lin_checks;
+  res.counters["probe.hidden_jacobian_compensation_checks"] += comp_checks;
   res.counters["probe.steps_with_nonzero_applied_force"] += nonzero_applied;
+  res.counters["probe.jacobian_terms_from_numeric_divergence"] += jc.numeric;
+  res.counters["probe.numeric_divergence_unstable_skipped"] += jc.fd_unstable;
+  res.counters["probe.reference_value_differs_skipped"] += jc.value_mismatch;
   res.nontrivial = inverse_checks > 0;
   res.class_hash = fnv_str(sc.at("template").as_str(), 7);
-  res.features = kind + (sub ? "+sub" : "") + (late ? "+late" : "+same_step") + (ec.temperature > 0 ? "+T300" : "+T0");
+  res.features = kind + (jc.hide ? "+hideJacobian" : "") + (sub ? "+sub" : "") + (late ? "+late" : "+same_step") + (ec.temperature > 0 ? "+T300" : "+T0");
   res.fingerprint = fnv_u64(fp, res.fingerprint);
   return res;
 }
